@@ -46,4 +46,8 @@ func NewSpec(super *supervisor.Supervisor, pipeline string, rawSpec interface{})
   trusted
   flag allocates
   ensures err == nil ==> spec != nil && ifaceVal(spec) != 0
+
+// closing a filter releases the filter's own resources; the pipeline's data is not a filter's to change
+iface (f Filter) Close()
+  flag allocates
 @*/
